@@ -289,6 +289,10 @@ func (m *MethodMocker) Return(value ...interface{}) *When {
 	if m.when != nil {
 		return m.when.Return(value...)
 	}
+	if value == nil {
+		// Return() 未带任何返回值: 用空数组表示, 以便检查返回值个数
+		value = []interface{}{}
+	}
 
 	var (
 		when *When
@@ -542,6 +546,10 @@ func (m *DefMocker) When(specArg ...interface{}) *When {
 func (m *DefMocker) Return(value ...interface{}) *When {
 	if m.when != nil {
 		return m.when.Return(value...)
+	}
+	if value == nil {
+		// Return() 未带任何返回值: 用空数组表示, 以便检查返回值个数
+		value = []interface{}{}
 	}
 	var (
 		when *When
